@@ -54,6 +54,12 @@ func newSuperGraph(root *ssa.Function) *superGraph {
 			if c.Call.IsInvoke() {
 				return
 			}
+			// a transparent helper (a former closure that became a function) with one call site
+			if g, ok := c.Call.Value.(*ssa.Function); ok && fam[originFn(g)] && isHelper(g) {
+				count[originFn(g)]++
+				sg.callSite[originFn(g)] = c
+				return
+			}
 			// a closure value returned by an immediately-invoked closure and called later
 			if ex, ok := strip(c.Call.Value).(*ssa.Extract); ok {
 				if hc, ok := ex.Tuple.(*ssa.Call); ok {
